@@ -86,6 +86,10 @@ def validate_trace(trace_file, n_events, module='Trace', timeout=3600, xmx='3g')
     (rejects, stats).  Raises MachineryError if TLC did not consume the trace."""
     mod = os.path.join(SPEC, 'trace', module + '.tla')
     cfg = os.path.join(SPEC, 'trace', module + '.cfg')
+    # the JSON reader needs roughly 12x the file size on the heap
+    mb = os.path.getsize(trace_file) // (1 << 20)
+    if mb > 200:
+        xmx = '%dg' % min(16, 3 + mb // 64)
     res = run_tlc(mod, cfg, workers=1, env={'TRACE_FILE': trace_file}, timeout=timeout, xmx=xmx)
     out = res['out']
     ok = 'Model checking completed. No error has been found.' in out
